@@ -94,6 +94,8 @@ def vector(req):
 
     def del_onion(line):
         dels.append(line)
+        if req.get("delfail") and len(dels) == 1:
+            return b"551 Internal error\r\n"        # the first removal attempt fails: the service is still there
         return b"250 OK\r\n"
     sim.handlers["ADD_ONION"] = add_onion
     sim.handlers["DEL_ONION"] = del_onion
@@ -197,6 +199,18 @@ def vector(req):
             sim.pump()
         except Exception:
             pass
+        if req.get("delfail"):
+            # the caller tries again: the removal request must go out again, for the same address
+            try:
+                dd = onion.remove()
+                dd.addErrback(lambda f: None)
+                sim.pump()
+            except Exception:
+                pass
+            if len(dels) == 2 and dels[0] == dels[1]:
+                dels.pop()
+            elif len(dels) == 1:
+                dels[0] = "DEL_ONION ?retry-not-sent"
         if dels:
             obs["del"] = dels[0].split(" ", 1)[1] if " " in dels[0] else ""
         if len(dels) > 1:
